@@ -23,11 +23,13 @@ rm -f $demo_dir/zz_mutant_demo_test.go
 # run the checks against the change
 git -C /repo apply $M/patch.diff || { echo "patch does not apply to /repo"; exit 2; }
 mkdir -p /verif/seeded/$ID
+rm -rf /verif/.work/evidence.keep; mkdir -p /verif/.work; cp -r /verif/evidence /verif/.work/evidence.keep
 : > /verif/seeded/$ID/check_output.txt
 for p in $PROPS; do
   (cd /verif && ./check $p --tier quick 2>&1 | grep -v "^KNOWN-FINDING" | tail -4) | tee -a /verif/seeded/$ID/check_output.txt
 done
 git -C /repo checkout -- .
+rm -rf /verif/evidence; mv /verif/.work/evidence.keep /verif/evidence
 git -C /repo status --short | head -3
 cp $M/patch.diff $M/demo_test.go /verif/seeded/$ID/ 2>/dev/null; cp $M/NOTES.md /verif/seeded/$ID/NOTES.agent.md 2>/dev/null
 echo "$suite" > /verif/seeded/$ID/suite_with_change.txt; echo "$with" > /verif/seeded/$ID/demo_with_change.txt; echo "$without" > /verif/seeded/$ID/demo_without_change.txt
